@@ -13,7 +13,7 @@ R3 a wrong passphrase is an error on each path
 from __future__ import annotations
 
 import ast
-from typing import Any, Dict, List, Optional, Tuple
+from typing import Any, Dict, List, Optional, Set, Tuple
 
 from ..kit import Kit, is_call, key, norm, atom_truthy_of
 from ..index import dotted, walk_shallow, unparse, names_read, NOFOLD
@@ -780,6 +780,79 @@ def r8(k: Kit) -> None:
     rep.floor('C15.R8', 'EC key constructors', n, 3)
 
 
+def r9(k: Kit) -> None:
+    """Decoded SSH fields are handed on as read; passphrase tests."""
+    rep = k.rep
+    idx = k.idx
+    rep.rule('C15.R9', 'in every decode_ssh_public / decode_ssh_private a '
+             'variable assigned from packet.get_*() has that assignment as '
+             'its only definition reaching the return (a foreign key is '
+             'constructed from the numbers in the file, not from a '
+             're-ordered or adjusted copy whose companion fields - e.g. the '
+             'RSA CRT coefficient - no longer fit)')
+    base = idx.cls('public_key.SSHKey')
+    n = 0
+    for c in idx.all_subclasses(base):
+        for dn in ('decode_ssh_public', 'decode_ssh_private'):
+            d = c.methods.get(dn)
+            if d is None:
+                continue
+            g = k.cfg(d)
+            rd = k.rd(d)
+            read_defs: Dict[str, Set[int]] = {}
+            for nd in g.nodes:
+                for nm, v in rd.defs[nd.id]:
+                    if v is not None and any(
+                            isinstance(x, ast.Call) and
+                            isinstance(x.func, ast.Attribute) and
+                            dotted(x.func.value) == 'packet' and
+                            x.func.attr.startswith('get_')
+                            for x in ast.walk(v)):
+                        read_defs.setdefault(nm, set()).add(nd.id)
+            for r in g.nodes:
+                if not (isinstance(r.ast, ast.Return) and r.ast.value):
+                    continue
+                for nm in sorted(names_read(r.ast.value) & set(read_defs)):
+                    n += 1
+                    ds = rd.defs_of(r.id, nm)
+                    rep.check(ds <= read_defs[nm], 'C15.R9',
+                              key(d, f'{nm} returned as read'),
+                              'only the packet read defines it',
+                              f'{c.name}.{dn}: `{nm}` is re-assigned between '
+                              'the read and the return; fields computed by '
+                              'the writer for the original value (RSA iqmp '
+                              'for the original p, q) no longer match and '
+                              'a valid foreign key is rejected or re-exported '
+                              'inconsistently', k.loc(d, r))
+    rep.floor('C15.R9', 'decoded fields returned', n, 20)
+    rep.rule('C15.R10', 'whether a private key is written / read encrypted '
+             'is decided by `passphrase is None`, never by its truth value: '
+             'the empty passphrase is a passphrase (a key exported with \'\' '
+             'must not be written in the clear)')
+    m = 0
+    for fi in idx.iter_funcs(['public_key']):
+        if 'passphrase' not in fi.params:
+            continue
+        g = k.cfg(fi)
+        for a in g.nodes:
+            if a.kind != 'atom' or a.ast is None:
+                continue
+            if dotted(a.ast) == 'passphrase':
+                rep.violation('C15.R10', key(fi, 'passphrase truth test'),
+                              f'{fi.qual} tests the truth value of '
+                              '`passphrase`: with passphrase=\'\' the key is '
+                              'treated as if no passphrase had been given '
+                              '(written unencrypted / opened without one)',
+                              k.loc(fi, a))
+            elif isinstance(a.ast, ast.Compare) and \
+                    dotted(a.ast.left) == 'passphrase' and \
+                    isinstance(a.ast.ops[0], (ast.Is, ast.IsNot)):
+                m += 1
+                rep.ok('C15.R10', key(fi, f'{norm(a.ast)} #{m}'),
+                       'is-None test', k.loc(fi, a))
+    rep.floor('C15.R10', 'passphrase is-None tests', m, 4)
+
+
 def run(idx, rep, tier):
     k = Kit(idx, rep)
     rep.assumptions += NOT_DECIDED
@@ -791,3 +864,4 @@ def run(idx, rep, tier):
     r6(k)
     r7(k)
     r8(k)
+    r9(k)
